@@ -91,6 +91,11 @@ fn directed_asts() -> Vec<(RangeAst, Spelling)> {
     add(vec![Alt::Set(vec![Tok::Garbage("~1.y".into()), Tok::Cmp(Op::Bare, p3(1, 2, 3))])]);
     add(vec![Alt::Set(vec![Tok::Garbage("-".into()), Tok::Cmp(Op::Bare, p1(10))])]); // loose " - 10"
     add(vec![Alt::Set(vec![Tok::Garbage("foo".into())])]);
+    // loose " - 10" with a leading blank: npm drops the lone "-" and reads "10"
+    for p in [p1(10), p2(1, 2), p3(1, 2, 3), p3p(1, 2, 3, "rc.1")] {
+        v.push((RangeAst { alts: vec![Alt::Set(vec![Tok::Garbage("-".into()), Tok::Cmp(Op::Bare, p)])] }, Spelling { lead_blank: 1, ..Spelling::plain() }));
+    }
+    let mut add = |alts: Vec<Alt>| v.push((RangeAst { alts }, plain.clone()));
     add(vec![set(vec![(Op::Caret, p1(0))])]);
     add(vec![set(vec![(Op::Gt, Partial { comps: vec![Xr::Wild('x')], pre: vec![], build: vec![] })])]);
     add(vec![set(vec![(Op::Gt, Partial { comps: vec![n(1), Xr::Wild('x'), n(3)], pre: vec![], build: vec![] })])]);
